@@ -104,35 +104,16 @@ Definition is_weighted (crossings : list (list string)) (f : ufactor) : bool :=
   | _ => false
   end.
 
-(** [for f in design: if isinstance(f, DerivedFactor): f.desugar_for_weights(replacements)]:
-    a derived factor one of whose window factors is (already) in
-    [replacements] is put in [replacements] too.  [repl] = the factor names
-    that are keys of [replacements]. *)
-Fixpoint desugar_derived (d : list ufactor) (repl : list string) : list string :=
-  match d with
-  | [] => repl
-  | UDerived n deps :: tl =>
-    if existsb (fun x => mem_str x repl) deps then desugar_derived tl (n :: repl)
-    else desugar_derived tl repl
-  | _ :: tl => desugar_derived tl repl
-  end.
-
-(** [chain.from_iterable([replacements.get(f, [f]) for f in design])] with
-    [replacements[weighted] = [derived_f (HiddenName), flat_f]] and
-    [replacements[derived] = [f, f]]. *)
+(** The new design: [replacements.get(f, [f])] for every [f] of the design,
+    an object being listed once ([if not any(r is other ...)]), with
+    [replacements[weighted] = [derived_f (named HiddenName(f.name)), flat_f (named f.name)]]
+    and, for a derived factor whose window uses a replaced factor,
+    [replacements[derived] = [f', f']] (one rewritten factor of the same name,
+    hence one entry).  So only the weighted factors contribute two entries. *)
 Definition desugar_design (crossings : list (list string)) (d : list ufactor) : list (fname * ufactor) :=
-  let weighted := map uname (filter (is_weighted crossings) d) in
-  match weighted with
-  | [] => map (fun f => (Plain (uname f), f)) d
-  | _ =>
-    let repl := desugar_derived d weighted in
-    flat_map (fun f =>
-      if is_weighted crossings f then [(Hidden (uname f), f); (Plain (uname f), f)]
-      else match f with
-           | UDerived n _ => if mem_str n repl then [(Plain n, f); (Plain n, f)] else [(Plain n, f)]
-           | _ => [(Plain (uname f), f)]
-           end) d
-  end.
+  flat_map (fun f =>
+    if is_weighted crossings f then [(Hidden (uname f), f); (Plain (uname f), f)]
+    else [(Plain (uname f), f)]) d.
 
 Definition is_continuous (f : ufactor) : bool :=
   match f with UContinuous _ => true | _ => false end.
